@@ -1,3 +1,4 @@
+import Ntrip.Guards.Apps
 import Ntrip.Proofs.Reader
 import Ntrip.Proofs.SegmentRefine
 import Ntrip.Properties.C02
@@ -78,5 +79,13 @@ theorem tie_skeleton :
 example : Isolated [.byte 0xD3, .eof, .byte 0x00, .timeout, .byte 0x01] := by simp [Isolated, ReadRes.isSoftFailure, ReadRes.isByte]
 example : (runReader ⟨50, 1⟩ [.byte 0xD3, .eof, .byte 0x00, .timeout, .byte 0x01] { clock := [10, 20] }).1.forwarded
     = [0xD3, 0x00, 0x01] := by decide
+
+/-- Tie T1: what `Handle` hands over — single bytes by value, from the read loop itself (one
+    byte per `Read`, so a read result is either a byte or an error, as in the model's `ReadRes`). -/
+theorem tie_handover :
+    Gen.sent_fh_Handler_Handle = some ["go handler.RTCMHandler.HandleMessages()", "byteChan <- buf[0]"] := by decide
+
+/-- Tie T1 (guards): the conditions and loops of `Handle` (which results stop it, which are tolerated, when a byte is forwarded). -/
+theorem tie_guards_reader : type_of% Ntrip.Guards.reader := Ntrip.Guards.reader
 
 end Ntrip.C13
